@@ -177,7 +177,7 @@ TypeOfE(e) ==
   CASE e.k = "lit" -> (TB(e.t, 0))
     [] e.k = "flit" -> (TB(e.t, 0))
     [] e.k = "fnref" -> (TB(e.t, 0))
-    [] e.k = "var" -> (TB(Decay(env[e.n].t), 0))
+    [] e.k \in {"var", "strlit"} -> (TB(Decay(env[e.n].t), 0))
     [] e.k = "idx" -> (TB(Decay(TypeOfE(e.a).t.t), 0))
     [] e.k = "deref" -> (TB(Decay(TypeOfE(e.e).t.t), 0))
     [] e.k = "mem" -> (LET b == TypeOfE(e.e)  fd == FieldOf(b.t.id, e.f) IN TB(Decay(fd.t), fd.bw))
@@ -202,7 +202,7 @@ TypeOfE(e) ==
                          IF IsArith(a.t) /\ IsArith(b.t) THEN TB(ArithT(a, b), 0) ELSE TB(a.t, 0))
     [] OTHER -> (TB(TInt, 0))
 TypeOfLV(e) ==
-  CASE e.k = "var" -> (env[e.n].t)
+  CASE e.k \in {"var", "strlit"} -> (env[e.n].t)
     [] e.k = "idx" -> (TypeOfE(e.a).t.t)
     [] e.k = "deref" -> (TypeOfE(e.e).t.t)
     [] e.k = "mem" -> (FieldOf(TypeOfLV(e.e).id, e.f).t)
@@ -246,8 +246,12 @@ LoadLV(lv) ==
     ELSE IF lv.t.k \in {"p", "fp"} THEN RV(lv.t, x)
     ELSE [ok |-> TRUE, t |-> lv.t, v |-> x, bw |-> 0]           \* whole struct value
 
+(* A string literal denotes an array object of static storage duration holding its characters and a terminating zero    *)
+(* (6.4.5p6): the program record declares that object (hidden from the C text) under the name e.n, and the literal is an    *)
+(* lvalue for it; like any array it decays to a pointer to its first element.  Whether equal literals share storage is       *)
+(* unspecified: generated programs never compare pointers into different literals.                                           *)
 LVal(e) ==
-  CASE e.k = "var" -> (
+  CASE e.k \in {"var", "strlit"} -> (
          IF e.n \in DOMAIN env THEN LV(env[e.n].obj, <<>>, env[e.n].t, 0) ELSE Bad("unbound " \o e.n))
     [] e.k = "idx" -> (
          LET p == Eval(e.a)  i == Eval(e.i) IN
@@ -276,7 +280,7 @@ Eval(e) ==
   CASE e.k = "lit" -> ( RV(e.t, Canon(e.t.n, e.v)))
     [] e.k = "flit" -> (FOk(e.t.n, FV(e.neg, e.mag)))
     [] e.k = "fnref" -> (RV(e.t, [fn |-> e.n]))          \* a function designator converted to a pointer to the function
-    [] e.k \in {"var", "idx", "deref", "mem"} -> ( LoadLV(LVal(e)))
+    [] e.k \in {"var", "strlit", "idx", "deref", "mem"} -> ( LoadLV(LVal(e)))
     [] e.k = "addr" -> (
          LET lv == LVal(e.l) IN
          IF ~lv.ok THEN lv
@@ -377,7 +381,14 @@ FuncByName(n) == CP.funcs[CHOOSE j \in 1..Len(CP.funcs) : CP.funcs[j].name = n]
 (* initial value of an object of type t from initialiser tree init ([] = none -> zero for statics, indeterminate for autos: the
    generator always initialises autos it reads); scalars: [e |-> expr]; aggregates: [list |-> seq of init] in member order *)
 InitVal(t, init) ==      \* returns [ok, val]
-  IF "e" \in DOMAIN init THEN
+  IF "e" \in DOMAIN init /\ init.e.k = "strlit" /\ t.k = "a" THEN
+    \* an array of character type initialised by a string literal (6.7.9p14): successive characters, the terminating zero
+    \* only if there is room, remaining elements zero
+    (IF init.e.n \notin DOMAIN env THEN Bad("unbound-string")
+     ELSE LET src == mem[env[init.e.n].obj].val.el IN
+          IF Len(src) - 1 > t.n THEN Bad("string-too-long")
+          ELSE [ok |-> TRUE, val |-> [el |-> [j \in 1..t.n |-> IF j <= Len(src) THEN [v |-> Conv(t.t.n, src[j].v)] ELSE ZeroOf(t.t)]]])
+  ELSE IF "e" \in DOMAIN init THEN
     LET r == Eval(init.e) IN
     IF ~r.ok THEN r
     ELSE IF t.k = "s" THEN [ok |-> TRUE, val |-> r.v]
